@@ -658,11 +658,19 @@ const _: () = {
 
 #[cfg(feature="__rt_native__")]
 mod sync {
+    #[cfg(not(ohkami_verif))]
     pub struct WaitGroup(std::ptr::NonNull<
         std::sync::atomic::AtomicUsize
     >);
+    #[cfg(ohkami_verif)]
+    pub struct WaitGroup(std::ptr::NonNull<
+        crate::__verif__::atomic::AtomicUsize
+    >);
     const _: () = {
+        #[cfg(not(ohkami_verif))]
         use std::sync::atomic::{AtomicUsize, Ordering};
+        #[cfg(ohkami_verif)]
+        use {crate::__verif__::atomic::AtomicUsize, std::sync::atomic::Ordering};
         use std::ptr::NonNull;
         use std::future::Future;
         use std::task::{Context, Poll};
